@@ -79,6 +79,8 @@ type World struct {
 	axioms         []axiomLine
 	axiomSrc       []string
 	replay         *replayPlan
+	allocMemo map[string]bool
+	inDataInv bool
 }
 
 type axiomLine struct {
@@ -749,6 +751,7 @@ type Obligation struct {
 	Clause       *Clause
 	Relaxed      *SolverResult
 	Pos          string
+	Src          string // source position of the instruction a safety obligation belongs to
 }
 
 // quantFact is a universally quantified fact assumed on some path (a
